@@ -502,12 +502,15 @@ pub(crate) fn run_c18api(_replay: Option<&str>) -> Report {
                 let v: *mut std::collections::BTreeSet<u8> = view;
                 let s: *mut <super::super::grpc::GrpcService as GoBgpService>::WatchEventStream = stream;
                 async move {
-                    // quiescence: nothing for 300 ms
+                    // quiescence: nothing for 300 ms, twice in a row with a yield in between (a process that was
+                    // not scheduled for a while must not mistake its own pause for the handler's silence)
+                    let mut quiet = 0;
                     loop {
                         // SAFETY: single-threaded runtime, the borrows do not outlive this future
                         let (view, stream) = unsafe { (&mut *v, &mut *s) };
                         match tokio::time::timeout(Duration::from_millis(300), stream.next()).await {
                             Ok(Some(Ok(resp))) => {
+                                quiet = 0;
                                 if let Some(api::watch_event_response::Event::Table(t)) = resp.event {
                                     for p in t.paths {
                                         let txt = format!("{:?}", p.nlri);
@@ -527,7 +530,16 @@ pub(crate) fn run_c18api(_replay: Option<&str>) -> Report {
                             }
                             Ok(Some(Err(e))) => return Err(format!("stream error: {e}")),
                             Ok(None) => return Err("the watch stream ended".to_string()),
-                            Err(_) => return Ok(()),
+                            Err(_) => {
+                                quiet += 1;
+                                if quiet >= 2 {
+                                    return Ok(());
+                                }
+                                for _ in 0..16 {
+                                    tokio::task::yield_now().await;
+                                }
+                                continue;
+                            }
                         }
                     }
                 }
